@@ -27,14 +27,14 @@ impl PiXY {
 
     fn from_spectrum_unchecked<S: State>(spectrum: &Spectrum<S>) -> Self {
         let (n1, n2) = if let &[n1, n2] = spectrum.shape().as_ref() {
-            (n1 - 1, n2 - 1)
+            (n1.saturating_sub(1), n2.saturating_sub(1))
         } else {
             panic!("dimensions do not fit");
         };
 
         let num = (0..=n1)
             .flat_map(|m1| (0..=n2).map(move |m2| (m1, m2)))
-            .take(spectrum.elements() - 1)
+            .take(spectrum.elements().saturating_sub(1))
             .skip(1)
             .map(|(m1, m2)| {
                 let p1 = m1 * (n2 - m2);
@@ -149,12 +149,12 @@ impl Fst {
             .array
             .iter()
             .zip(sfs.iter_frequencies())
-            .take(sfs.elements() - 1)
+            .take(sfs.elements().saturating_sub(1))
             .skip(1);
 
         let shape = sfs.shape();
-        let n_i_sub = (shape[0] - 2) as f64;
-        let n_j_sub = (shape[1] - 2) as f64;
+        let n_i_sub = shape[0] as f64 - 2.0;
+        let n_j_sub = shape[1] as f64 - 2.0;
 
         let (num, denom) = polymorphic_iter
             .map(|(v, fs)| {
